@@ -4,3 +4,4 @@ import AJ.Props.C16Seq
 import AJ.Props.C09Doc
 import AJ.Props.SlotCor
 import AJ.Props.SlotCor2
+import AJ.Props.C15Gen
